@@ -317,6 +317,43 @@ type P26 struct {
 	J *NInt
 }
 
+// P27: a table row of plain columns (no union, array or map anywhere in its schema).
+type P27 struct {
+	Key   string  `json:"key"`
+	Seq   int64   `json:"seq"`
+	Value []byte  `json:"value"`
+	F     float64 `json:"f"`
+	B     bool    `json:"b"`
+	N     int32   `json:"n"`
+	Note  string  `json:"note"`
+}
+
+// P28: scalars only.
+type P28 struct {
+	A int64
+	B float64
+	C int32
+	D bool
+	E float32
+	F int16
+}
+
+// P29: narrow omitempty fields, each directly followed in memory by a narrow field of its own:
+// whether a field is empty is decided by its own bytes.
+type P29 struct {
+	F32 float32 `json:"f32,omitempty"`
+	N32 int32   `json:"n32"`
+	I16 int16   `json:"i16,omitempty"`
+	J16 int16   `json:"j16"`
+	B   bool    `json:"b,omitempty"`
+	C   bool    `json:"c"`
+	D   int16   `json:"d"`
+	I32 int32   `json:"i32,omitempty"`
+	K32 int32   `json:"k32"`
+	G32 float32 `json:"g32,omitempty"`
+	H32 float32 `json:"h32"`
+}
+
 type poolEntry struct {
 	Name string
 	GT   *GT
@@ -359,5 +396,5 @@ var embedTypes = []*GT{
 var pool = mkPool(
 	P01{}, P02{}, P03{}, P04{}, P05{}, P06{}, P07{}, P08{}, P09{}, P10{},
 	P11{}, P12{}, P13{}, P14{}, P15{}, P16{}, P17{}, P18{}, P19{}, P20{},
-	P21{}, P22{}, P23{}, P24{}, P25{}, P26{},
+	P21{}, P22{}, P23{}, P24{}, P25{}, P26{}, P27{}, P28{}, P29{},
 )
